@@ -674,6 +674,63 @@ impl VisitMut for ForEach {
     }
 }
 
+/// R13: `continue` in a `for` body (Verus: "for-loops do not yet support continue"). A body of the shape
+///   S1; if C { T; continue; } S2          becomes          S1; if C { T } else { S2 }
+/// (same statements executed on both paths, nothing dropped). Applied repeatedly for several guards in one body; any other
+/// placement of `continue` (inside a match arm, a nested block, with an `else`) is left alone and stays unsupported.
+pub struct ContinueElim {
+    pub log: Vec<serde_json::Value>,
+}
+struct HasContinue(bool);
+impl<'ast> syn::visit::Visit<'ast> for HasContinue {
+    fn visit_expr_continue(&mut self, _: &'ast ExprContinue) { self.0 = true; }
+    fn visit_expr_for_loop(&mut self, _: &'ast ExprForLoop) {}
+    fn visit_expr_while(&mut self, _: &'ast ExprWhile) {}
+    fn visit_expr_loop(&mut self, _: &'ast ExprLoop) {}
+    fn visit_expr_closure(&mut self, _: &'ast ExprClosure) {}
+}
+fn stmts_have_continue(ss: &[Stmt]) -> bool {
+    let mut h = HasContinue(false);
+    for s in ss { syn::visit::Visit::visit_stmt(&mut h, s); }
+    h.0
+}
+fn eliminate_continue(stmts: &[Stmt]) -> Option<Vec<Stmt>> {
+    for i in 0..stmts.len() {
+        if let Stmt::Expr(Expr::If(ei), _) = &stmts[i] {
+            if ei.else_branch.is_none() {
+                if let Some(Stmt::Expr(Expr::Continue(c), _)) = ei.then_branch.stmts.last() {
+                    if c.label.is_none() {
+                        let then_rest = &ei.then_branch.stmts[..ei.then_branch.stmts.len() - 1];
+                        if stmts_have_continue(then_rest) || stmts_have_continue(&stmts[..i]) { return None; }
+                        let rest = &stmts[i + 1..];
+                        let rest2: Vec<Stmt> = if stmts_have_continue(rest) { eliminate_continue(rest)? } else { rest.to_vec() };
+                        let cond = &ei.cond;
+                        let new_if: Expr = parse_quote!(if #cond { #(#then_rest)* } else { #(#rest2)* });
+                        let mut out = stmts[..i].to_vec();
+                        out.push(Stmt::Expr(new_if, None));
+                        return Some(out);
+                    }
+                }
+            }
+        }
+        if stmts_have_continue(&stmts[i..=i]) { return None; }
+    }
+    None
+}
+impl VisitMut for ContinueElim {
+    fn visit_expr_mut(&mut self, e: &mut Expr) {
+        visit_mut::visit_expr_mut(self, e);
+        if let Expr::ForLoop(f) = e {
+            if stmts_have_continue(&f.body.stmts) {
+                if let Some(ns) = eliminate_continue(&f.body.stmts) {
+                    self.log.push(json!({"rule": "R13", "src_line": line_of(f.for_token.span), "before": "`if C { ..; continue; } REST` in a for body", "after": "`if C { .. } else { REST }`"}));
+                    f.body.stmts = ns;
+                }
+            }
+        }
+    }
+}
+
 /// R11c: Option-combinator desugaring (opt-in per function, because the receiver type is not known syntactically):
 ///   R.and_then(|p| B) -> match R { Some(p) => B, None => None }      R.map(|p| B) -> match R { Some(p) => Some(B), None => None }
 ///   R.map_err(|p| B) -> match R { Ok(v) => Ok(v), Err(p) => Err(B) }
